@@ -20,6 +20,11 @@ MaxPage(T) == IF T = {} THEN -1 ELSE CHOOSE p \in {DHi(r) - 1 : r \in T} : \A r 
 LogFits(T, S) == MaxPage(T) < 8 * S
 LogVerdict(T, S) == IF S >= 1 /\ LogFits(T, S) THEN "must_ok" ELSE "must_fail"
 
+\* ... at byte offset `off` of the log file: a window that is too small is refused wherever it lies; whether a window that
+\* does not start on a page boundary of the file is accepted at all is left open (the protocol text does not say) -- if it
+\* is, everything else holds for it as for any other window
+LogVerdictAt(T, S, off) == IF LogVerdict(T, S) = "must_fail" THEN "must_fail" ELSE IF off % 4096 # 0 THEN "open" ELSE "must_ok"
+
 \* pages touched by a write of n >= 1 bytes starting at byte address a (absolute)
 Pages(a, n) == {p \in (a \div 4096)..((a + n - 1) \div 4096) : TRUE}
 \* bits a write must set: the pages it touched, provided logging is on for them
